@@ -177,7 +177,7 @@ def run(ctx, res):
             continue
         n0, n1, g0, g1, k0, d0 = r1.spans[0]
         data_val = float(np.squeeze(r1.data[d0][2])) if len(r1.data) > d0 else None
-        lines.append({"op": "Lens.single", "cfg": lc.encode_cfg(lens, case["ltype"]), "hyper": lc.encode_hyper(case["hyper"]),
+        lines.append({"op": "Lens.single", "cfg": lc.encode_cfg(lens, case["ltype"], with_prior(case, case["prior_list"])["cfg"]), "hyper": lc.encode_hyper(case["hyper"]),
                       "ddt": f2b(case["ddt"]), "dd": f2b(case["dd"]), "dLum": f2b(case["dlum"]), "beta": lc.opt(case["beta"]),
                       "ext": {"losDraw": (f2b(r1.gev[g0]) if g1 > g0 else None),
                               "kinScaling": [f2b(x) for x in (r1.kin[k0][1] if len(r1.kin) > k0 else [])]},
